@@ -471,7 +471,7 @@ def _kind(w, salt):
 
 def builder_structs(tier):
     out = []
-    maxn = 8 if tier == 'quick' else 10
+    maxn = 8 if tier == 'quick' else 14
     salt = 0
     for n in range(1, maxn + 1):
         m = mask(n)
@@ -628,7 +628,8 @@ def mix_set(tier):
 
 def debug_structs(tier):
     out = []
-    bases = (3, 8, 12, 16, 24, 32, 64, 100, 128) if tier == 'quick' else tuple(range(1, 17)) + (17, 24, 31, 32, 33, 48, 63, 64, 65, 96, 100, 127, 128)
+    bases = (3, 8, 12, 16, 24, 32, 64, 100, 128) if tier == 'quick' else tuple(range(1, 21)) + (24, 31, 32, 33, 48, 63, 64, 65, 96, 100, 127, 128)
+    full_max = 16 if tier == 'quick' else 20
 
     def cands(n):
         c = []
@@ -664,7 +665,7 @@ def debug_structs(tier):
 
     for n in bases:
         cs = cands(n)
-        p = [('full', 'full')] if n <= 16 else [('alpha', 'alpha')]
+        p = [('full', 'full')] if n <= full_max else [('alpha', 'alpha')]
         # single-field structs of every kind
         for mk in cs:
             out.append(Struct(n, [mk()], debug=True, twin=True, family='DBG1', passes=p))
@@ -826,7 +827,8 @@ def optional_structs(tier):
                             k += 1
                             f = Field([(lo, w)], kind, arr=(K, stride), family='OPTORDER', arg_order=od,
                                       stride_sep=(':' if k % 3 == 0 else '='))
-                            out.append(Struct(n, [f], family='OPTORDER', passes=[('full', 'full')] if n <= 16 else [('alpha', 'alpha')]))
+                            # u8: all states x all values; u16: the state alphabet x all values (the argument order cannot interact with the raw value)
+                            out.append(Struct(n, [f], family='OPTORDER', passes=[('full', 'full')] if n <= 8 else ([('alpha', 'full')] if n <= 16 else [('alpha', 'alpha')])))
         # multi-range arrays and scalars with access first
         for od in orders:
             out.append(Struct(n, [Field([(0, 1), (2, 1)], 'u', arr=(2, 4), family='OPTORDER', arg_order=od)], family='OPTORDER',
